@@ -51,6 +51,10 @@ type callTokenData struct {
 	CallID    string // 32-char lowercase hex; binds this call to its cursors
 	SchemaIPC []byte // serialized output schema for dynamic methods; nil for static
 	StreamID  string // stable across init/continuations of one stream call
+	// InputSchemaIPC is the serialized input schema a dynamic exchange stream
+	// declared in its StreamResult; nil for static methods (their input schema
+	// is in the registration) and for dynamic streams that declared none.
+	InputSchemaIPC []byte
 }
 
 // cursorTokenData is the advancing half: re-minted every turn under
@@ -69,8 +73,9 @@ type cursorTokenData struct {
 // resolvedCall is what an authenticated CallID resolves to — either from the
 // cache or by opening the client's call token.
 type resolvedCall struct {
-	SchemaIPC []byte
-	StreamID  string
+	SchemaIPC      []byte
+	StreamID       string
+	InputSchemaIPC []byte
 }
 
 // defaultCallStateCacheEntries bounds the per-process call cache.
@@ -455,6 +460,15 @@ func normalizeTokenKey(key []byte) []byte {
 // packCallToken seals the half of a stream's state that is fixed for the
 // life of the call. Minted once, by /init; never re-issued.
 func (h *HttpServer) packCallToken(callID string, outputSchema *arrow.Schema, auth *AuthContext, streamID string) ([]byte, error) {
+	return h.packStreamCallToken(callID, outputSchema, nil, auth, streamID)
+}
+
+// packStreamCallToken is packCallToken for a stream that declared its input
+// schema at run time (a dynamic exchange stream's StreamResult.InputSchema).
+// The pipe transports keep that schema in the connection and cast every
+// input batch against it; over HTTP it has to travel in the call token, or a
+// castable-but-unequal input reaches the handler uncast on one transport only.
+func (h *HttpServer) packStreamCallToken(callID string, outputSchema, inputSchema *arrow.Schema, auth *AuthContext, streamID string) ([]byte, error) {
 	data := callTokenData{
 		CreatedAt: time.Now().Unix(),
 		CallID:    callID,
@@ -463,13 +477,16 @@ func (h *HttpServer) packCallToken(callID string, outputSchema *arrow.Schema, au
 	if outputSchema != nil {
 		data.SchemaIPC = serializeSchema(outputSchema)
 	}
+	if inputSchema != nil {
+		data.InputSchemaIPC = serializeSchema(inputSchema)
+	}
 	token, err := h.sealToken(callTokenVersion, &data, callTokenAad(auth))
 	if err != nil {
 		return nil, err
 	}
 	// Warm the cache with the values we already hold, so this stream's first
 	// continuation does not have to open the token it was just handed.
-	h.callStates.put(callID, auth, &resolvedCall{SchemaIPC: data.SchemaIPC, StreamID: streamID}, h.tokenExpiry(data.CreatedAt))
+	h.callStates.put(callID, auth, &resolvedCall{SchemaIPC: data.SchemaIPC, StreamID: streamID, InputSchemaIPC: data.InputSchemaIPC}, h.tokenExpiry(data.CreatedAt))
 	return token, nil
 }
 
@@ -541,7 +558,7 @@ func (h *HttpServer) resolveCall(cursor *cursorTokenData, callToken []byte, auth
 		return nil, &RpcError{Type: "RuntimeError", Message: "Malformed state token"}
 	}
 
-	got := &resolvedCall{SchemaIPC: data.SchemaIPC, StreamID: data.StreamID}
+	got := &resolvedCall{SchemaIPC: data.SchemaIPC, StreamID: data.StreamID, InputSchemaIPC: data.InputSchemaIPC}
 	// The entry expires with the call token it was resolved from, not a full
 	// TTL from now: otherwise a hit keeps accepting a call whose token every
 	// cache-less instance already refuses.
